@@ -791,6 +791,12 @@ fn context_case(r: &mut Rng, out: &mut Out, w: &gen::World) {
     };
     let top = Context::from_pairs(vec![(k.into(), payload)], exts()).unwrap();
     let tv = ctx_value(&top).unwrap();
+    // tie the model's `contextToJson` to the code on exactly this case
+    match top.to_json_value() {
+        Err(JsonSerializationError::ReservedKey(_)) => out.line(format!("(json ctxto {})", sx::value(&tv)), "(err reserved)".into(), "context to (top-level reserved key)".into()),
+        Err(_) => out.line(format!("(json ctxto {})", sx::value(&tv)), "(err other)".into(), "context to (top-level reserved key)".into()),
+        Ok(j) => out.line(format!("(json ctxto {})", sx::value(&tv)), format!("(ok {})", jsx_canon(&j)), "context to (top-level reserved key)".into()),
+    }
     match top.to_json_value() {
         Err(_) => out.count("context_top_reserved_refused"),
         Ok(j) => match Context::from_json_value(j.clone()) {
